@@ -93,9 +93,10 @@ func VerifC17Walk() {
 	w.faultBudget = vParam("faults", 0)
 	maxPath := vParam("maxpath", 3)
 
-	root := "/p/r"
-	if vChoose(2) == 1 {
-		root = "/q/r"
+	// the root is named through the outside link /q -> /p (allowed), or directly
+	root := "/q/r"
+	if vParam("roots", 2) == 2 && vChoose(2) == 1 {
+		root = "/p/r"
 	}
 	t := &transitioner{root: root, cancelled: make(chan struct{})}
 	path := vkSymbolicPath(maxPath, vParam("deep", 1) == 1)
